@@ -89,15 +89,26 @@ int runner_loop(int rfd, int wfd, const char* exe) {
         std::string cwd = unhex(getl());
         std::string capture = unhex(getl());
         long timeout_ms = std::atol(getl().c_str());
+        const std::string stdin_mode = getl();       // "null", or "pty:<text>": stdin is a terminal on which <text> has been typed
         long n = std::atol(getl().c_str());
         std::vector<std::string> args;
         for (long i = 0; i < n; ++i) args.push_back(unhex(getl()));
+        int ptm = -1; std::string ptsn;
+        if (stdin_mode.rfind("pty:", 0) == 0) {
+            ptm = ::posix_openpt(O_RDWR | O_NOCTTY);
+            if (ptm < 0 || ::grantpt(ptm) != 0 || ::unlockpt(ptm) != 0) _exit(2);
+            ptsn = ::ptsname(ptm);
+            const std::string typed = unhex(stdin_mode.substr(4));
+            if (::write(ptm, typed.data(), typed.size()) < 0) _exit(2);      // waits in the line discipline until the child reads
+        }
         pid_t pid = fork();
         if (pid < 0) _exit(2);
         if (pid == 0) {
             if (chdir(cwd.c_str()) != 0) _exit(97);
             int fd = ::open(capture.c_str(), O_WRONLY | O_CREAT | O_TRUNC, 0644);
-            int nul = ::open("/dev/null", O_RDONLY);
+            int nul = -1;
+            if (ptm >= 0) { ::setsid(); nul = ::open(ptsn.c_str(), O_RDWR); ::close(ptm); }
+            else nul = ::open("/dev/null", O_RDONLY);
             if (fd < 0 || nul < 0) _exit(98);
             dup2(nul, 0); dup2(fd, 1); dup2(fd, 2);
             ::close(fd); ::close(nul); ::close(rfd); ::close(wfd);
@@ -123,6 +134,7 @@ int runner_loop(int rfd, int wfd, const char* exe) {
             if (WIFEXITED(st)) r.rc = WEXITSTATUS(st);
             else { r.signaled = true; r.rc = 128 + WTERMSIG(st); }
         }
+        if (ptm >= 0) ::close(ptm);
         std::fprintf(out, "%d %d %d\n", r.rc, r.timeout ? 1 : 0, r.signaled ? 1 : 0);
         std::fflush(out);
     }
@@ -130,8 +142,8 @@ int runner_loop(int rfd, int wfd, const char* exe) {
 
 struct Runner {
     FILE* to = nullptr; FILE* from = nullptr;
-    RunResult run(const std::string& cwd, const std::string& capture, long timeout_ms, const std::vector<std::string>& args) {
-        std::fprintf(to, "%s\n%s\n%ld\n%zu\n", hex(cwd).c_str(), hex(capture).c_str(), timeout_ms, args.size());
+    RunResult run(const std::string& cwd, const std::string& capture, long timeout_ms, const std::vector<std::string>& args, const std::string& stdin_mode = "null") {
+        std::fprintf(to, "%s\n%s\n%ld\n%s\n%zu\n", hex(cwd).c_str(), hex(capture).c_str(), timeout_ms, stdin_mode.c_str(), args.size());
         for (const auto& a : args) std::fprintf(to, "%s\n", hex(a).c_str());
         std::fflush(to);
         RunResult r; int t = 0, s = 0;
@@ -583,7 +595,12 @@ void do_case(const ev::Cmd& c) {
     std::vector<bool> probe_before;
     for (const auto& p : probes) { std::error_code e; probe_before.push_back(fs::exists(fs::symlink_status(p, e))); }
 
-    std::vector<std::string> args = {"eph", "--control-host", local_host, "--control-port", std::to_string(local_port), "--yes"};
+    // pre=1 (mode file): the destination already exists and the user, at a terminal, answers "y" to the overwrite question
+    const bool pre = c.i("pre", 0) != 0 && mode == "file";
+    const Bytes sentinel = {'O', 'L', 'D', '-', 'C', 'O', 'N', 'T', 'E', 'N', 'T', '\n'};
+    if (pre) { std::ofstream o(target / "out.bin", std::ios::binary); o.write(reinterpret_cast<const char*>(sentinel.data()), static_cast<std::streamsize>(sentinel.size())); }
+    std::vector<std::string> args = {"eph", "--control-host", local_host, "--control-port", std::to_string(local_port)};
+    if (!pre) args.push_back("--yes");
     if (mode == "defdir") { args.push_back("--fetch-default-dir"); args.push_back(target.string()); }
     if (!usename) args.push_back("--fetch-ignore-manifest-name");
     args.push_back("fetch");
@@ -597,7 +614,7 @@ void do_case(const ev::Cmd& c) {
 
     const fs::path capture = fs::path(W.work) / "capture.txt";
     const auto t_start = std::chrono::steady_clock::now();
-    const RunResult rr = W.runner.run(cwd.string(), capture.string(), 60000, args);
+    const RunResult rr = W.runner.run(cwd.string(), capture.string(), 60000, args, pre ? "pty:" + hex(std::string("y\n")) : std::string("null"));
 
     const long run_ms = static_cast<long>(std::chrono::duration_cast<std::chrono::milliseconds>(std::chrono::steady_clock::now() - t_start).count());
     std::vector<Found> files; std::vector<std::string> dirs;
@@ -607,6 +624,10 @@ void do_case(const ev::Cmd& c) {
         ignore.insert(capture.string());
         scan(W.work, target, ignore, all, alld);
         files = all; dirs = alld;
+    }
+    if (pre) {    // the old file left untouched is not something this fetch wrote
+        const std::string old = hex(sha(sentinel));
+        files.erase(std::remove_if(files.begin(), files.end(), [&](const Found& f) { return f.rel == "out.bin" && f.dig == old; }), files.end());
     }
     for (size_t i = 0; i < probes.size(); ++i) {
         std::error_code e;
@@ -641,7 +662,7 @@ void do_case(const ev::Cmd& c) {
     std::string tail = out.size() > 600 ? out.substr(out.size() - 600) : out;
     ev::Ev("fetch").i("id", id).s("mode", mode).s("flags", flags).b("usename", usename).b("has_name", has_name).raw("name", jbytes(name))
         .i("size", size).s("want", hex(H)).raw("chain", ev::jlist(hops)).i("rc", rr.rc).b("timeout", rr.timeout).b("signaled", rr.signaled)
-        .s("err", errcode).raw("files", ev::jlist(fl)).raw("dirs", ev::jlist(dl)).s("bind", W.exe.empty() ? "inproc" : "binary").i("ms", run_ms).s("out", tail).emit();
+        .s("err", errcode).b("pre", pre).raw("files", ev::jlist(fl)).raw("dirs", ev::jlist(dl)).s("bind", W.exe.empty() ? "inproc" : "binary").i("ms", run_ms).s("out", tail).emit();
     std::fflush(ev::out());
     for (const auto& f : files) fs::remove((target / f.rel).lexically_normal(), ec);                 // strays outside the case directory, too
     for (auto it = dirs.rbegin(); it != dirs.rend(); ++it) fs::remove((target / *it).lexically_normal(), ec);
